@@ -3,6 +3,8 @@ CONSTANTS Slot = 16
           K = 2048
           C = 1048576
           ZeroFill = FALSE
+          TagCodes = {}
+          LenientTags = FALSE
           ValueCodes = {0, 10, 20, 21, 22, 30, 40, 45, 46, 50, 51, 60, 61, 70, 71, 72, 73, 74, 80, 81}
           StepCodes = {3, 5, 6, 7, 8, 15, 17, 18, 19, 22}
           PackCodes = {256, 513, 768, 1025, 1792, 2049, 3840, 2304, 2320, 2560, 2816, 3072, 4352, 4608, 5120, 5377, 5632, 5633, 5634, 5888, 5898, 5899, 5901, 25856}
